@@ -26,6 +26,9 @@ def values_for(name, n, flavour):
         return ["s%s%02d" % (name, i) for i in range(n)]
     if flavour == "mixed":
         return values_for(name, n, ["int", "float", "str"][ord(name[0]) % 3])
+    if flavour == "tup":
+        # argument values that are themselves (hashable, sortable) sequences
+        return [(i, i + 1) for i in range(n)]
     if flavour == "hetero":
         # ints and floats within one argument (each value must arrive with the type it was given)
         return [10 * (i + 1) if i % 2 == 0 else 10 * (i + 1) + 0.5 for i in range(n)]
@@ -131,7 +134,7 @@ class Concrete(object):
             d = {nm: self.case_vals[nm][v - 1] for nm, v in zip(self.case_names, c)}
             if as_dict and self.variant.get("case_key_order") and len(out) % 2 == 1:
                 d = dict(reversed(list(d.items())))       # same case, keys written in another order
-            if not as_dict and len(self.case_names) == 1 and self.variant.get("bare_cases"):
+            if not as_dict and len(self.case_names) == 1 and self.variant.get("bare_cases") and self.variant.get("values") != "tup":
                 out.append(d[self.case_names[0]])          # fn_args='w', cases=(v1, v2, ...): values not wrapped in tuples
             else:
                 out.append(d if as_dict else tuple(d[nm] for nm in self.case_names))
@@ -555,6 +558,8 @@ def replay_case(case, variant):
     consts = {**conc.constants}
     combos = conc.combos()
     cases = conc.cases(as_dict=True) if cfg["nca"] else None
+    if cases is not None and len(cases) == 1 and variant.get("bare_case"):
+        cases = cases[0]          # a single case may be given as the dict itself
     cases_t = conc.cases(as_dict=variant.get("cases_as_dict", True)) if cfg["nca"] else None
     entry = variant.get("entry", "core")
     fn = log
@@ -588,7 +593,8 @@ def replay_case(case, variant):
                     res = car.case_runner(ns["wrapped"], tuple(names), conc.cases(as_dict=False),
                                           combos=combos, constants={**conc.resources, **consts}, split=split, **opts)
                 elif entry == "case_runner" and cfg["nca"] and kind == "flat":
-                    res = car.case_runner(fn, conc.case_names[0] if (len(conc.case_names) == 1 and variant.get("bare_cases")) else conc.case_names, cases_t,
+                    res = car.case_runner(fn, conc.case_names[0] if (len(conc.case_names) == 1 and variant.get("bare_cases")
+                                                                     and variant.get("values") != "tup") else conc.case_names, cases_t,
                                           combos=combos, constants={**conc.resources, **consts}, split=split, **opts)
                 else:
                     res = cr.combo_runner(fn, combos, cases=cases, constants={**conc.resources, **consts} or None,
@@ -852,7 +858,7 @@ def check_df(case, conc, variant, df):
 RESULT_KINDS_GRID = ["scalar", "tuple2", "array", "int", "list2d", "array1"]
 RESULT_KINDS_CASES = ["scalar", "tuple2", "array", "str", "strbool", "list2d", "bool"]
 EXEC_STYLES = ["submit", "apply", "mppool"]
-VALUE_FLAVOURS = ["int", "float", "str", "mixed", "hetero", "hetero_str"]
+VALUE_FLAVOURS = ["int", "float", "str", "mixed", "hetero", "hetero_str", "tup"]
 SPELLINGS = ["dict", "tuple", "list", "iter"]
 
 
@@ -861,16 +867,19 @@ def variants_for(case, idx, prop, n_variants):
     out = []
     for j in range(n_variants):
         k = idx * 7 + j * 3
-        v = dict(values=VALUE_FLAVOURS[(k + j) % 6], spelling=SPELLINGS[(k // 2 + j) % 4],
+        # (the flavour index uses idx itself: k is a multiple of 7 when j = 0)
+        v = dict(values=VALUE_FLAVOURS[(idx * 5 + j * 3) % 7], spelling=SPELLINGS[(k // 2 + j) % 4],
                  exec=EXEC_STYLES[(k + j) % 3], seed=[True, 3, 11][(k + j) % 3],
                  cases_as_dict=(k % 2 == 0), noshuffle=[False, 0][(k // 3) % 2], case_key_order=(k % 3 == 1),
                  dupkind=k % 3, decoy=(k % 2 == 1), bare_cases=(k % 4 < 2), infer_fn_args=(k % 5 < 2),
-                 grid_order=[None, "desc", None, "rot"][(k + j) % 4], sig_perm=(k % 2 == 1), seq_attr=(k % 3 != 1), scalar_overlap=(((k // 7) // 4) % 2 == 1))
+                 grid_order=[None, "desc", None, "rot"][(k + j) % 4], sig_perm=(k % 2 == 1), bare_case=(k % 2 == 0), seq_attr=(k % 3 != 1), scalar_overlap=(((k // 7) // 4) % 2 == 1))
         # numbers next to strings: positional outputs only (a Dataset coordinate would turn them all into strings); the
         # union of such case values has no defined order, so a nested case output is then compared as a multiset
         ok_hs = (not cfg.get("dup")) and cfg["kind"] in ("nested", "flat")
         if v["values"] == "hetero_str" and not ok_hs:
             v["values"] = "hetero"
+        if v["values"] == "tup" and (cfg["kind"] not in ("nested", "flat") or cfg.get("dup")):
+            v["values"] = "int"          # (tuples cannot be coordinate labels)
         if cfg["kind"] in ("nested", "flat"):
             kinds = RESULT_KINDS_CASES if cfg["nca"] else RESULT_KINDS_GRID
             v["result"] = kinds[(k + j) % len(kinds)]
